@@ -22,6 +22,9 @@ RULE = ("cases = (mode, N, L) one-level formal-PR obligations enumerated by TLC 
 
 
 def run(rep):
+    if rep.tier == "thorough":
+        from .. import apalache
+        apalache.shape_lemmas(rep)
     fnd = Findings()
     res, table = dwtmodel.run_ops(rep, rep.tier, ["RefPR", "ImplPR"], Emit=False)
     calls = dwtmodel.run_calls(rep, rep.tier, ["InvNoRaise", "InvExtent", "FwdShapesOK"], {"fwd", "inv"},
